@@ -930,6 +930,10 @@ func main() {
 	if len(os.Args) >= 2 && os.Args[1] == "probe" {
 		config.InitializeTestingConfig(os.TempDir() + "/C06_probe/")
 		config.SetNewQueryPipelineEnabled(true)
+		if os.Getenv("C06_STRESS") != "" {
+			stressMain(os.Args[2:])
+			return
+		}
 		probeMain(os.Args[2:])
 		return
 	}
